@@ -137,9 +137,9 @@ CLAIMED = {
         note='Trusted: Coq kernel, translator, harness + smppref.py. The segmented theorem holds for ANY NUMBER of messages outstanding at once and any interleaving of their events (C02_concurrent_receipts: '
              'footprint and frame lemmas over the one-message invariant, Proofs/ConcurrentReceipts.v); mixes with plain messages, duplicates and unknown ids are '
              'covered by the correspondence runs and the oracle. Hypotheses: error codes '
-             'below 65532 (the internal status codes), distinct references among live segmented messages - KNOWN FINDING reference-reuse-while-receipts-pending shows the code fails without it (a message '
-             'accepted in full and waiting for receipts loses its status cell to a later message with the same 8-bit reference; reproduced on every run) -, no '
-             'expiry during the history. Receipt texts whose echoed text looks like receipt fields are generated. Proved for the code after fix d1270d3 (status cell covers all segments from the first put). No axioms.',
+             'below 65532 (the internal status codes), segments of two messages with the same reference are not stored interleaved (references may coincide since fix 78b3543: a message accepted in '
+             'full keeps its own status cell while a later message re-uses its 8-bit reference; regression histories on every run), no '
+             'expiry during the history. Receipt texts whose echoed text looks like receipt fields are generated. Proved for the code after fixes d1270d3 (status cell covers all segments from the first put) and 78b3543 (status cells keyed by reference alone). No axioms.',
         technique='Coq proof: per-message phase invariant over dict lookups, one lemma per event kind, induction over admissible event lists; PDU-level trace correspondence',
         design='6 (C02)'),
     'C03': dict(
@@ -291,7 +291,7 @@ CLAIMED = {
         design='6 (C15)'),
     'C01': dict(
         text='Coq theorems (Props/C01.v) over the executable model of response handling, per-segment status, cumulated status and expiry '
-             '(Model/Handlers.v, Model/Correlator.v): for ANY NUMBER of segmented messages in flight at once (distinct references and sequence numbers; theorem C01_concurrent_messages by '
+             '(Model/Handlers.v, Model/Correlator.v): for ANY NUMBER of segmented messages in flight at once (distinct sequence numbers, ANY references incl. equal ones; theorem C01_concurrent_messages by '
              'footprint/frame lemmas over the one-message invariant), each of ANY number k>=2 of segments, and ANY admissible interleaving of '
              'their events (each segment stored after its write in the order sent, then accepted / rejected with any status / generic_nack / timed out) '
              'the hooks see NO outcome while a segment is unprocessed and EXACTLY ONE once all are, carrying the message\'s log; it is the accepting '
@@ -302,9 +302,10 @@ CLAIMED = {
              'references and comparing hook calls and all stores with the model; whole sessions on a virtual-time loop (real sender, SMSC '
              'accepting/rejecting/nacking/ignoring segments, suspending hooks, connection loss, reference wrap, unbuildable messages) are checked '
              'by an oracle: exactly one outcome per queued message, with its own log_id/extra_data and the right polarity.',
-        note='Trusted: Coq kernel, translator, harness. Hypothesis of the theorems: distinct 8-bit references among the segmented messages in flight - '
-             'KNOWN FINDING reference-collision-256-in-flight shows the code fails without it (257 reference-taking messages queued at once: the first '
-             'segmented message gets three outcomes, the last none; reproduced on every run). Plain messages mixed in, connection loss and the sender '
+        note='Trusted: Coq kernel, translator, harness. The concurrent theorem allows EQUAL references among the messages in flight (status cells are keyed by '
+             'reference + first sequence number since fix 78b3543); its hypothesis is that segments of two messages with the same reference are not stored '
+             'interleaved (the sender stores one message after the other). Regression scenario: 257 reference-taking messages queued at once. '
+             'Plain messages mixed in, connection loss and the sender '
              'side (C06) are covered by the correspondence runs and the session oracle. '
              'Eventual delivery of the time-out relies on correlator traffic driving the sweep (keep-alive). Outside: the C14 known finding '
              '(response before put under write back-pressure: the message is then reported as timed out - still exactly one outcome). Proved for the '
